@@ -13,7 +13,8 @@ PRIORS = ("nothing", "main", "main+bak", "main+tmp", "main+bak+tmp")
 
 OLD = ["1;255;0;0;17;2.2", "1;0;0;0;3;lamp", "1;0;1;0;2;0", "1;255;3;0;11;old sketch é"]
 NEW = OLD + ["1;0;1;0;2;1", "2;255;0;0;17;2.2", "2;0;0;0;6;temp", "2;0;1;0;0;21.5", "1;255;3;0;0;77"]
-STALE = ["7;255;0;0;17;2.2", "7;3;0;0;3;stale"]
+# the stale files are LONGER than the old and the new serialisation (a temp file that is not truncated shows)
+STALE = ["7;255;0;0;17;2.2", "7;3;0;0;3;stale", "7;255;3;0;11;" + "stale sketch " * 40, "8;255;0;0;17;2.2", "8;1;0;0;36;" + "s" * 300, "9;255;0;0;17;2.2"]
 LATER = NEW + ["3;255;0;0;17;2.2", "1;0;1;0;2;0"]
 
 
@@ -61,9 +62,9 @@ def prepare_template(fmt, prior):
     return d
 
 
-def load_fresh(directory, fmt):
+def load_fresh(directory, fmt, path=None):
     """Fresh gateway, real start_persistence() (no faults). Returns (tree, gateway) or raises."""
-    path = os.path.join(directory, f"p.{fmt}")
+    path = path or os.path.join(directory, f"p.{fmt}")
     gw = make_gateway(path, [])
     gw.start_persistence()
     return project_tree(gw.sensors), gw
@@ -90,13 +91,39 @@ def run_scenario(scn):
     install_shims()
     fmt, prior, mode, at, cut, loss = scn[:6]
     buffered = len(scn) > 6 and scn[6] == "buffered"
+    style = scn[6] if len(scn) > 6 and scn[6] in ("relative", "symlink", "filelink") else "absolute"
     tmpl = os.path.join(base_dir(), f"tmpl-{fmt}-{prior}")
     if not os.path.isdir(tmpl):
         prepare_template(fmt, prior)
     d = os.path.join(base_dir(), "scn")
     shutil.rmtree(d, ignore_errors=True)
+    if os.path.islink(d + "-link"):
+        os.unlink(d + "-link")
     shutil.copytree(tmpl, d)
     path = os.path.join(d, f"p.{fmt}")
+    cwd = os.getcwd()
+    if style == "relative":
+        os.chdir(d)
+        path = f"p.{fmt}"
+    elif style == "symlink":
+        os.symlink(d, d + "-link")
+        path = os.path.join(d + "-link", f"p.{fmt}")
+    elif style == "filelink":
+        # the persistence file itself is a symbolic link to a file in another directory
+        shutil.rmtree(d + "-fl", ignore_errors=True)
+        os.makedirs(d + "-fl")
+        os.symlink(os.path.join(d, f"p.{fmt}"), os.path.join(d + "-fl", f"p.{fmt}"))
+        path = os.path.join(d + "-fl", f"p.{fmt}")
+    try:
+        return _run_scenario_at(scn, d, path, fmt, prior, mode, at, cut, loss, buffered, style)
+    finally:
+        os.chdir(cwd)
+        if os.path.islink(d + "-link"):
+            os.unlink(d + "-link")
+        shutil.rmtree(d + "-fl", ignore_errors=True)
+
+
+def _run_scenario_at(scn, d, path, fmt, prior, mode, at, cut, loss, buffered, style):
     old_tree = TREES["old"] if prior != "nothing" else ()
     new_tree = TREES["new"]
     viols = []
@@ -121,7 +148,7 @@ def run_scenario(scn):
             # the save finished before reaching the crash point (op index beyond this run)
             pass
         fs.apply_loss(loss)
-    sig_loc = ("buffered|" if buffered else "") + f"{mode}@{opname}" + (f"+torn" if cut else "") + (f"|loss={loss if isinstance(loss, str) else 'prefix'}" if mode == "crash" else "")
+    sig_loc = ("buffered|" if buffered else "") + (f"path={style}|" if style != "absolute" else "") + f"{mode}@{opname}" + (f"+torn" if cut else "") + (f"|loss={loss if isinstance(loss, str) else 'prefix'}" if mode == "crash" else "")
     if mode == "fail":
         if isinstance(raised, Exception) and not isinstance(raised, OSError):
             viols.append(Violation(PROP, f"fail-raises-other|{sig_loc}|{type(raised).__name__}", f"failing {describe(op)} made save raise {type(raised).__name__}: {raised}", replay))
@@ -129,7 +156,7 @@ def run_scenario(scn):
             viols.append(Violation(PROP, f"dirty-flag-cleared|{sig_loc}", f"save failed at {describe(op)} but the state is no longer marked unsaved", replay))
     # start-up load after the interrupted / failed save
     try:
-        tree, gw2 = load_fresh(d, fmt)
+        tree, gw2 = load_fresh(d, fmt, path)
     except Exception as exc:  # pylint: disable=broad-except
         viols.append(Violation(PROP, f"load-raises|{sig_loc}|{type(exc).__name__}", f"{fmt}/{prior}: after {mode} at op {at} ({describe(op) if op else '-'}), loss {loss}: start-up raised {type(exc).__name__}: {short(str(exc))}", replay))
         return viols, reached
@@ -141,14 +168,14 @@ def run_scenario(scn):
         if mode == "fail":
             # same process continues: first retry the save in the process that saw the failure
             gw.tasks.persistence.save_sensors()
-            t_retry, _ = load_fresh(d, fmt)
+            t_retry, _ = load_fresh(d, fmt, path)
             if t_retry != new_tree:
                 viols.append(Violation(PROP, f"retry-save-wrong|{sig_loc}", f"{fmt}/{prior}: after a failed {describe(op)}, the retried save did not persist the current state", replay))
         for line in LATER[len(NEW):]:
             gw2.logic(line)
         gw2.tasks.persistence.need_save = True
         gw2.tasks.persistence.save_sensors()
-        t2, _ = load_fresh(d, fmt)
+        t2, _ = load_fresh(d, fmt, path)
         want = project_tree(gw2.sensors)
         if t2 != want:
             viols.append(Violation(PROP, f"next-save-wrong|{sig_loc}", f"{fmt}/{prior}: after {mode} at op {at}, the next save+load did not yield the then-current state", replay))
@@ -210,8 +237,10 @@ def scenarios(tier):
             # one past the end: the save completes, nothing injected (sanity: must load 'new')
             for loss in ("none", "drop", "zero", ("prefix", 0), ("prefix", 1)):
                 scns.append((fmt, prior, "crash", len(ops), None, loss))
+    # configuration dimension: the persistence file named by a relative path / through a symlinked directory
+    scns += [s[:6] + (style,) for s in scns if s[4] is None and s[5] == "none" and s[1] in ("main", "main+bak") for style in ("relative", "symlink", "filelink")]
     # second file model: Python's user-space buffer (data reaches the OS at flush/close, is lost at process death)
-    scns += [s + ("buffered",) for s in scns if s[4] is None and (s[5] in ("none", "drop", "zero") or s[5] == ("prefix", 0))]
+    scns += [s + ("buffered",) for s in scns if len(s) == 6 and s[4] is None and (s[5] in ("none", "drop", "zero") or s[5] == ("prefix", 0))]
     cleanup_process_scratch()
     return scns, oplog
 
